@@ -109,6 +109,11 @@ def explore(harness, shard: dict | None = None, *, cpu_budget: float = 30.0, per
                         space.detach_path()
                         w = sym.witness()
                         for v in found:
+                            if callable(v.detail):
+                                try:
+                                    v.detail = v.detail()
+                                except Exception as ex:  # noqa
+                                    v.detail = f"<detail unavailable: {type(ex).__name__}>"
                             n = seen_sigs.get(v.signature, 0)
                             seen_sigs[v.signature] = n + 1
                             if n < 3 and len(res["violations"]) < max_violations:
